@@ -537,8 +537,43 @@ struct Ctx {
       if (!ok) {
         vrt::Fail(who + " resumed on a fiber that neither ran it before nor completed what it awaited");
       }
+      // ... and with its own executor or the executor of one of the awaited states, never an unrelated one
+      bool known = true;
+      bool exec_ok = &e == sh.exec_before;
+      for (int o : st.os) {
+        if (p.os[o].kind == OK::Own) {
+          known = false;
+        } else {
+          exec_ok = exec_ok || &e == &Exec(p.os[o].x);
+        }
+      }
+      if (known && !exec_ok) {
+        vrt::Fail(who + " continues with CurrentExecutor " + std::to_string(ExecId(e)) +
+                  ", which is neither its own nor the executor of anything it awaited");
+      }
+      for (int o : st.os) {
+        CheckCoreExecutor(o, who);
+      }
     } else if (me != sh.fiber_before || &e != sh.exec_before) {
       vrt::Fail(who + " (CurrentExecutor) changed fiber or executor");
+    }
+  }
+  // an awaited future is left as it was: its state still has the executor it was made with
+  void CheckCoreExecutor(int o, const std::string& who) {
+    const OSpec& s = p.os[o];
+    if (s.kind == OK::Own || s.task) {
+      return;
+    }
+    yaclib::detail::BaseCore* core = nullptr;
+    if (s.shared) {
+      core = sfut[o].Valid() ? sfut[o].GetCore().Get() : nullptr;
+    } else {
+      core = fut[o].Valid() ? fut[o].GetCore().Get() : nullptr;
+    }
+    if (core != nullptr && core->_executor.Get() != &Exec(s.x)) {
+      vrt::Fail(who + ": the state of awaited future " + std::to_string(o) + " now has executor " +
+                std::to_string(core->_executor.Get() == nullptr ? -1 : ExecId(*core->_executor)) + " instead of " +
+                std::to_string(s.x));
     }
   }
   void Throwing(int c, const Seen& seen) {
@@ -1014,6 +1049,9 @@ void RunPlan(const Plan& plan) {
     }
   }
   drain(true);  // what the pool's jobs may have submitted to the queues
+  for (int o = 0; o < plan.next; ++o) {
+    cx.CheckCoreExecutor(o, "at the end");
+  }
   // harvest: every started coroutine must be complete by now, with the Result the property says
   for (std::size_t c = 0; c < plan.cs.size(); ++c) {
     auto& sh = cx.co[c];
